@@ -77,15 +77,9 @@ func checkSpec(ctx *Ctx, id string) {
 		e := ecoByName(name)
 		r := NewRNG(ctx.Seed, id+"/"+name)
 		var extra []string
-		extra = append(extra, corpusVersions(name)...)
-		if g := extraSpecGens[name]; g != nil {
-			for i := 0; i < n; i++ {
-				extra = append(extra, g(r))
-			}
-		}
 		// maven (C12 claims numbers of any length since fix 94889ac): one prefix, its last number
 		// taken from both sides of 2^63, 2^64, 10^19 and 10^20, plain and zero-padded (a padded text
-		// that is longer while its value is smaller), so that long numbers meet at the same position
+		// that is longer while its value is smaller), so that long numbers meet at the same position; first in the stream: the head of the stream always joins the pool
 		if name == "maven" {
 			longs := []string{"9223372036854775807", "9223372036854775808", "18446744073709551615", "18446744073709551616", "010000000000000000000",
 				"10000000000000000000", "99999999999999999999", "100000000000000000000", "0018446744073709551616", "00000000000000000000018446744073709551617"}
@@ -93,6 +87,12 @@ func checkSpec(ctx *Ctx, id string) {
 				for _, l := range longs {
 					extra = append(extra, pre+l)
 				}
+			}
+		}
+		extra = append(extra, corpusVersions(name)...)
+		if g := extraSpecGens[name]; g != nil {
+			for i := 0; i < n; i++ {
+				extra = append(extra, g(r))
 			}
 		}
 		// families: the same numeric base under every marker spelling of the ecosystem (so that
